@@ -784,6 +784,19 @@ def check_note_matchers(inp):
     else:
         rp, ep = TT.S.pitches(ref), TT.S.pitches(est)
         pitch_ok = TT.pitch_ok
+    if inp.get("warm") is not None and len(est):
+        # the same array objects were matched a moment ago while they held a time-shifted estimate (a latency sweep that
+        # edits the estimate in place): the pairing asked for below is a function of the values they hold NOW
+        d = int(inp["warm"])
+        ei += d
+        for call in (lambda: T.match_notes(ri, rp, ei, ep, **TT.kwargs(p, TT.S.K_NOTES)),
+                     lambda: T.match_note_onsets(ri, ei, **TT.kwargs(p, TT.S.K_ONSET)),
+                     lambda: T.match_note_offsets(ri, ei, **TT.kwargs(p, TT.S.K_OFFSET))):
+            try:
+                call()
+            except Exception:  # noqa: BLE001 - only has to have happened
+                pass
+        ei -= d
     for ratio in ([p["offset_ratio"], None] if p["offset_ratio"] is not None else [None]):
         q = dict(p)
         q["offset_ratio"] = ratio
@@ -869,6 +882,8 @@ def gen_note_matchers(rng, tier, shard, nshards, boost):
         dt = {kk: v for kk, v in dt.items() if gen.exact_in(vals[kk], v)}
         if dt:
             inp["dtype"] = dt
+        if rng.random() < 0.3:
+            inp["warm"] = rng.choice([1, 3, 7])
         yield inp
 
 
